@@ -9,7 +9,7 @@
 (***************************************************************************)
 EXTENDS Integers, Sequences, FiniteSets, TLC
 Key(c, e) == [c |-> c, e |-> e]
-KeySet == {Key("i1", e) : e \in {"i64", "u64", "i128", "u128"}} \cup {Key("im1", e) : e \in {"i64", "i128"}}
+KeySet == {Key("i1", e) : e \in {"i64", "u64", "i128", "u128"}} \cup {Key("im1", e) : e \in {"i64", "i128"}} \cup {Key("i0", e) : e \in {"i64", "u64", "i128", "u128"}}
           \cup {Key("i2p64", e) : e \in {"u128", "i128"}} \cup {Key("sa", e) : e \in {"owned", "borrowed"}}
           \cup {Key("s1", "owned"), Key("bt", "bool")}
 Found(ins, look) == \E q \in ins : q.c = look.c
